@@ -915,9 +915,11 @@ class CeiloChunk(AbstractChunk):
         # Loop through every group, and look for sub-layers in it ...
         for ind in range(len(self.groups)):
 
-            # Let's extract the heights of all the hits in this group ...
-            gro_heights = self.data.loc[self.data.loc[:, 'group_id'] ==
-                          self._groups.at[ind, 'cluster_id'], 'height'].to_numpy()
+            # Let's extract the heights of all the hits in this group ... ordered in time (most recent
+            # last), as the base height of the sub-layers depends on it (via the lookback percentage).
+            in_group = self.data.loc[:, 'group_id'] == self._groups.at[ind, 'cluster_id']
+            time_order = np.argsort(self.data.loc[in_group, 'dt'].to_numpy(), kind='stable')
+            gro_heights = self.data.loc[in_group, 'height'].to_numpy()[time_order]
 
             # Only look for multiple layers if it is worth it ...
             # 1) Layer density is large enough
@@ -962,11 +964,11 @@ class CeiloChunk(AbstractChunk):
             # Keep track of what I just found ...
             self.groups.at[ind, 'ncomp'] = ncomp
 
-            # If I need to split it, assign suitable layer ids
+            # If I need to split it, assign suitable layer ids (back in the row order of the data)
             if ncomp > 1:
-                self.data.loc[self.data.loc[:, 'group_id'] ==
-                              self._groups.at[ind, 'cluster_id'], 'layer_id'] = \
-                    id_offset+10*ind+sub_layers_id
+                row_order_ids = np.empty_like(sub_layers_id)
+                row_order_ids[time_order] = sub_layers_id
+                self.data.loc[in_group, 'layer_id'] = id_offset+10*ind+row_order_ids
 
         # Deal with the points that have not been assigned a layer id yet
         to_fill = self.data['layer_id'].isna()
